@@ -376,7 +376,7 @@ def run(ctx):
         if e.k == "call" and e.a[0].endswith("::cloned"):
             e = e.a[1][0]
         if not (e.k == "call" and "Option" in e.a[0] and e.a[0].endswith("::filter")):
-            verdict = _explicit_filter(prog, helper, is_np)
+            verdict = _explicit_filter(prog, helper, is_np, next(iter(numpad_encs)) if (is_np and len(numpad_encs) == 1) else None)
             if verdict is True:
                 r3.ok(key, "keeps a value iff %s (explicit match form)" % ("numpad option ∧ ¬empty" if is_np else "¬empty"))
             elif verdict is None:
@@ -553,7 +553,7 @@ def run(ctx):
     r6.floor(1, "the key map")
 
 
-def _explicit_filter(prog, helper, is_np):
+def _explicit_filter(prog, helper, is_np, enc=None):
     """Explicit-match form of the helpers: every path returning a value must have seen get()==Some ∧ ¬is_empty (∧ numpad);
     every path returning None must have seen one of them fail.  Returns True | None (unknown shape) | message."""
     from engine.analyses import sym_paths, PathLimit, bool_of
@@ -590,10 +590,36 @@ def _explicit_filter(prog, helper, is_np):
             if ds.k == "arg" and ds.a[0] == 3 and bv is not None and is_np:
                 numpad = bv
                 continue
+            if ds.k == "discr" and strip_refs(ds.a[0]).k == "arg" and strip_refs(ds.a[0]).a[0] == 3 and is_np and enc is not None:
+                # the option handed on as a private two-variant enum: which variant this path took
+                _adt, v_on, v_off, _n = enc
+                if vals == (v_on,) or (vals == "otherwise" and v_on not in allv and v_off in allv):
+                    numpad = True
+                elif vals == (v_off,) or (vals == "otherwise" and v_off not in allv and v_on in allv):
+                    numpad = False
+                else:
+                    return None
+                continue
             return None
         ret = strip_refs(env.get(0)) if env.get(0) is not None else None
         if ret is None:
             return None
+        inner_ = strip_refs(ret.a[1][0]) if (ret.k == "call" and ret.a[0].endswith("::cloned") and ret.a[1]) else ret
+        if inner_.k == "call" and "Option" in inner_.a[0] and inner_.a[0].endswith("::filter") and len(inner_.a[1]) == 2 \
+                and strip_refs(inner_.a[1][0]).k == "call" and strip_refs(inner_.a[1][0]).a[0].endswith("HashMap::<K, V, S, A>::get"):
+            # this arm answers with `get(..).filter(closure).cloned()`: present ∧ closure, decided inside the combinator
+            clo_ = strip_refs(inner_.a[1][1])
+            ck_ = str(clo_.a[0])[len("closure:"):] if (clo_.k == "agg" and str(clo_.a[0]).startswith("closure:")) else None
+            if ck_ is None or ck_ not in prog.fns or clo_.a[1]:
+                return None
+            from engine.analyses import truth_table as _tt
+            tt_ = _tt(prog.body(ck_), [("is_empty", lambda x: x.k == "call" and x.a[0].endswith("String::is_empty") and strip_refs(x.a[1][0]).k == "arg"
+                                       and strip_refs(x.a[1][0]).a[0] == 2)])
+            if tt_ != {(False,): True, (True,): False}:
+                return "the filter of this arm is not `¬is_empty` (%s)" % (tt_,)
+            if is_np and numpad is not True:
+                return "the layout's entry is answered on a path with numpad=%s" % numpad
+            continue
         if ret.k == "agg" and str(ret.a[0]).endswith("Option::None"):
             kind = "none"
         elif (ret.k == "agg" and str(ret.a[0]).endswith("Option::Some")) or (ret.k == "call" and (ret.a[0].endswith("::cloned") or ret.a[0].endswith("::clone"))):
